@@ -125,7 +125,8 @@ func (l *layouter) ws() string {
 	case 2:
 		return "  "
 	case 3:
-		return fmt.Sprintf(" /* c%d */ ", l.n)
+		// (the closing mark written the way people write it: */, **/ after a starred box, /**/ for an empty one)
+		return fmt.Sprintf(" /* c%d %s ", l.n, []string{"*/", "*/", "**/", "* * ***/", "*/ /**/"}[l.n%5])
 	case 4:
 		return fmt.Sprintf(" // c%d\n", l.n)
 	case 5:
